@@ -15,7 +15,7 @@
    Transcribed: lib/ext2fs/closefs.c ext2fs_bg_has_super (through Geometry!BgHasSuper), ext2fs_super_and_bgd_loc2 (Loc),
    ext2fs_flush2 with EXT2_FLAG_MASTER_SB_ONLY / EXT2_FLAG_SUPER_ONLY (FlushSb, FlushGd, FlushMg), lib/ext2fs/openfs.c ext2fs_open2 +
    ext2fs_descriptor_block_loc2 when opened from a backup (ReadFrom), e2fsck/super.c check_backup_super_block and
-   e2fsck/unix.c main (FsckRepair), e2fsck/util.c get_backup_sb (FirstListed), resize/resize2fs.c adjust_fs_info's
+   e2fsck/unix.c main (FsckRepair), e2fsck/util.c get_backup_sb (ListedGroups, SearchPicks), resize/resize2fs.c adjust_fs_info's
    sparse_super2 rules (ResizeBk) and resize_fs's final close, misc/tune2fs.c main (MASTER_SB_ONLY cleared at open,
    SUPER_ONLY set unless a request clears it), lib/ext2fs/initialize.c's s_backup_bgs normalisation (MkfsBk).
    s_first_meta_bg = 0 throughout (the tools in scope never produce another value; assumption stated in evidence).  *)
@@ -25,7 +25,11 @@ CONSTANTS MaxG,                     \* bound on the number of groups (domain of 
           DevFsckIgnoresFeatDiff,   \*   tune2fs leaves MASTER_SB_ONLY set; check_backup_super_block ignores feature words;
           DevFlushSkipsLast,        \*   write_backup_super skipped for the last backup group;
           DevResizeKeepsOldGdt,     \*   resize2fs does not rewrite the descriptor backups of groups that existed before
-          DevResizeMovesSoleBackup  \*   literal adjust_fs_info (fixes/C20_1_resize_ss2_sole_backup.patch repairs it)
+          DevResizeMovesSoleBackup, \*   literal adjust_fs_info (fixes/C20_1_resize_ss2_sole_backup.patch repairs it)
+          DevBackupSearchIgnoresSs2 \*   KNOWN FINDING (enabled in the conformance cfg): e2fsck's own search for a backup
+                                    \*   (get_backup_sb) probes the sparse_super list 1, 3, 5, 7, 9, 25, ... and takes the first
+                                    \*   block that looks like a superblock: it does not know s_backup_bgs and it accepts a stale
+                                    \*   copy that an earlier geometry left in a group that no longer is a backup group
 VARIABLES prim, sbk, gdk, mgk, last, steps, saved, rec
 vars == <<prim, sbk, gdk, mgk, last, steps, saved, rec>>
 
@@ -95,9 +99,14 @@ FlushGd(s, gd, master, superonly, old) ==
 FlushMg(s, gd, superonly, old) ==
    IF superonly \/ ~s.metabg THEN old
    ELSE LET L == MgLocs(s) IN [mk \in MgKeys |-> IF mk \in L THEN <<gd[mk[1] + 1]>> ELSE old[mk]]
+\* a meta_bg descriptor block written into a group WITHOUT a superblock copy occupies the group's first block, i.e. it
+\* overwrites whatever superblock copy an earlier geometry left there
+DescGroups(s) == IF ~s.metabg THEN {} ELSE {g \in 1..(s.gdc - 1) : Loc(s, g).new = 0}
+Clobber(s, superonly, f) == IF superonly \/ ~s.metabg THEN f
+                            ELSE LET D == DescGroups(s) IN [g \in 1..MaxG |-> IF g \in D THEN <<>> ELSE f[g]]
 Flush(s, gd, master, superonly) ==
    /\ prim' = [sb |-> <<s>>, gd |-> gd]
-   /\ sbk' = FlushSb(s, master, sbk)
+   /\ sbk' = Clobber(s, superonly, FlushSb(s, master, sbk))
    /\ gdk' = FlushGd(s, gd, master, superonly, gdk)
    /\ mgk' = FlushMg(s, gd, superonly, mgk)
 
@@ -114,7 +123,7 @@ WellFormed(s) == /\ s.gdc >= 1 /\ s.gdc <= MaxG /\ s.dpb >= 2
 Mkfs(s, gd) ==
    /\ WellFormed(s) /\ Len(gd) = DescB(s)
    /\ prim' = [sb |-> <<s>>, gd |-> gd]
-   /\ sbk' = FlushSb(s, FALSE, NoSb) /\ gdk' = FlushGd(s, gd, FALSE, FALSE, NoSb) /\ mgk' = FlushMg(s, gd, FALSE, NoMg)
+   /\ sbk' = Clobber(s, FALSE, FlushSb(s, FALSE, NoSb)) /\ gdk' = FlushGd(s, gd, FALSE, FALSE, NoSb) /\ mgk' = FlushMg(s, gd, FALSE, NoMg)
    /\ last' = "mkfs" /\ steps' = 0 /\ saved' = prim' /\ rec' = "none"
 
 \* resize2fs (offline): new group count, s_backup_bgs by ResizeBk, new descriptor table; "new_fs->flags &= ~MASTER_SB_ONLY"
@@ -124,7 +133,7 @@ Resize(s, gd) ==
    /\ SameBut(s, Cur, {"gdc", "bk", "blocks", "inodes", "rsv"})
    /\ s.bk = (IF Cur.ss2 THEN ResizeBk(Cur.bk, Cur.gdc, s.gdc) ELSE Cur.bk)
    /\ prim' = [sb |-> <<s>>, gd |-> gd]
-   /\ sbk' = FlushSb(s, FALSE, sbk)
+   /\ sbk' = Clobber(s, FALSE, FlushSb(s, FALSE, sbk))
    /\ gdk' = LET L == GdLocs(s) IN
               [g \in 1..MaxG |-> IF g \in L /\ ~(DevResizeKeepsOldGdt /\ g < Cur.gdc /\ gdk[g] # <<>>) THEN <<gd>> ELSE gdk[g]]
    /\ mgk' = FlushMg(s, gd, FALSE, mgk)
@@ -188,14 +197,20 @@ ReadFrom(g, pgd) ==
 \* the primary descriptors are bad but the primary superblock is fine: e2fsck "Group descriptors look bad... trying
 \* backup blocks": get_backup_sb probes groups 1, 3, 5, 7, 9, 25, 27, ... (ext2fs_list_backups) whatever the feature set
 ListedGroups(n) == ClosedBackups(n) \ {0}
+\* which copy e2fsck's own search ends up with: literally the first listed group holding anything that parses; the repaired
+\* behaviour the property asks for = some prescribed copy
+SearchPicks == IF DevBackupSearchIgnoresSs2
+               THEN (LET C == {g \in ListedGroups(Cur.gdc) : sbk[g] # <<>>} IN IF C = {} THEN {} ELSE {SetMin(C)})
+               ELSE {g \in SbLocs(Cur) : sbk[g] # <<>>}
 FsckFromBackup ==
    /\ Alive /\ last = "env"
-   /\ LET C == {g \in ListedGroups(Cur.gdc) : sbk[g] # <<>>} IN
-      /\ C # {}
-      /\ LET r == ReadFrom(SetMin(C), prim.gd) IN
+   /\ \E g \in SearchPicks :
+         LET r == ReadFrom(g, prim.gd) IN
          /\ r.gd # <<>>
          /\ Flush(r.sb[1], r.gd, TRUE, FALSE)
    /\ last' = "fsck" /\ steps' = steps + 1 /\ UNCHANGED <<saved, rec>>
+\* a repairing e2fsck never replaces the superblock fields of a filesystem whose primary superblock was fine
+FsckKeeps == [][(last = "env" /\ last' = "fsck" /\ prim.sb # <<>>) => prim'.sb = prim.sb]_vars
 
 \* ------------------------------------------------------------------ the property's experiment
 \* zero the primary superblock and the primary descriptor blocks (meta_bg: the first-group copy of every meta group that
